@@ -372,7 +372,7 @@ def shards(ctx, kind):
     # depth 3 with every first line; classes without option_spec: depth 3 (their content is never interpreted)
     full = contents_count(nmax)
     step = 40000
-    big = with_spec if kind == "corr" or ctx.tier == "thorough" or ctx.deep else with_spec[:4]
+    big = with_spec if kind == "corr" or ctx.deep else with_spec[:6] if ctx.tier == "thorough" else with_spec[:4]
     for lab in big:
         for lo in range(0, full, step):
             units.append(("ex", lab, [""], lo, min(full, lo + step), nmax))
